@@ -70,10 +70,14 @@ def gen_cases(rng, tier):
                 r['basis'] = rxns[0]['basis']
             ops = []
             for _ in range(rng.randint(2, 7)):
-                o = rng.choice(['item_set', 'set_elem', 'set_all', 'set_all', 'sub_all', 'sub_elem'])
+                o = rng.choice(['item_set', 'set_elem', 'set_all', 'set_all', 'sub_all', 'sub_elem', 'item_mul', 'item_div'])
                 lo = rng.randrange(nr); ln = rng.randint(1, nr - lo)
                 if o in ('item_set', 'set_elem'):
                     ops.append([o, rng.randrange(nr), float(rng.choice(XS))])
+                elif o == 'item_mul':
+                    ops.append([o, rng.randrange(nr), float(rng.choice(KS_MUL))])
+                elif o == 'item_div':
+                    ops.append([o, rng.randrange(nr), float(rng.choice(KS_DIV))])
                 elif o == 'set_all':
                     m = rng.choice([nr, nr, 1, 0, nr + 1])    # 0 = python scalar; wrong lengths must be rejected
                     ops.append([o, float(rng.choice(XS)) if m == 0 else [float(rng.choice(XS)) for _ in range(m)]])
@@ -220,6 +224,10 @@ def set_apply(pr, handles, op):
     name = op[0]
     if name == 'item_set':
         handles[1 + op[1]].X = op[2]
+    elif name == 'item_mul':
+        it = handles[1 + op[1]]; it *= op[2]
+    elif name == 'item_div':
+        it = handles[1 + op[1]]; it /= op[2]
     elif name == 'set_elem':
         pr.X[op[1]] = op[2]
     elif name == 'set_all':
@@ -242,8 +250,12 @@ def degenerate(store, rop):
     if rop[0] in ('add', 'sub', 'iadd', 'isub'):
         a, b = store[rop[1]], store[rop[2]]
         sgn = 1 if rop[0] in ('add', 'iadd') else -1
-        return bool(b.has_reaction()) and a.X + sgn * b.X == 0
+        return has_rxn(b) and a.X + sgn * b.X == 0
     return False
+
+def has_rxn(r):
+    """has_reaction as the property means it (independent of the implementation's own predicate)"""
+    return float(r.X) != 0 and any(x != 0 for x in np.asarray(r._stoichiometry.to_array(), float).reshape(-1))
 
 def normalised(r):
     return abs(float(np.asarray(r._stoichiometry.to_array(), float).reshape(-1)[flat_ridx(r)]) + 1) < 1e-12
@@ -330,6 +342,8 @@ def coq_case(case, out):
             nm = op[0]
             if nm == 'item_set': sops.append(f'(SItemSet {cnat(op[1])} {q(op[2])})')
             elif nm == 'set_elem': sops.append(f'(SSetElem {cnat(op[1])} {q(op[2])})')
+            elif nm == 'item_mul': sops.append(f'(SItemMul {cnat(op[1])} {q(op[2])})')
+            elif nm == 'item_div': sops.append(f'(SItemDiv {cnat(op[1])} {q(op[2])})')
             elif nm == 'set_all': sops.append(f'(SSetAll {vec_of(op[1], 0)})')
             elif nm == 'sub_all': sops.append(f'(SSubAll {cnat(op[1])} {cnat(op[2])} {vec_of(op[3], 0)})')
             else: sops.append(f'(SSubElem {cnat(op[1])} {cnat(op[2])} {cnat(op[3])} {q(op[4])})')
@@ -392,11 +406,19 @@ def oracle(case):
         pr, handles, hdesc = set_handles(tmo, objs)
         n = len(objs)
         for op in case['ops']:
+            before = [float(x) for x in pr.X]
             try:
                 set_apply(pr, handles, op)
             except Exception:
                 continue
             cur = [float(x) for x in pr.X]
+            if op[0] in ('item_mul', 'item_div'):
+                k = op[2] if op[0] == 'item_mul' else 1. / op[2]
+                for j, (b, c) in enumerate(zip(before, cur)):
+                    if j == op[1] and abs(c - b * k) > 1e-12 * max(1, abs(c)):
+                        return f'set: item {j} scaled in place by {k} has X={c}, expected {b * k}'
+                    if j != op[1] and c != b:
+                        return f'set: scaling item {op[1]} in place changed the conversion of its sibling {j} ({b} -> {c})'
             for h, d in zip(handles, hdesc):
                 got = [float(x) for x in np.atleast_1d(h.X)]
                 want = cur if d[0] == 'set' else ([cur[d[1]]] if d[0] == 'item' else cur[d[1]:d[1] + d[2]])
@@ -457,7 +479,7 @@ def oracle(case):
         if any(r is x for x in store): return f'{name}: did not return a new object'
         if name in ('add', 'sub'):
             b = store[op[2] % n]
-            if b.has_reaction() and normalised(a) and normalised(b):
+            if has_rxn(b) and normalised(a) and normalised(b):
                 bb = b.copy(a.basis)
                 sgn = 1 if name == 'add' else -1
                 if a.X + sgn * bb.X != 0:
